@@ -10,12 +10,28 @@
     of elements and attributes, any number, any order, nested or not
     ([C17_xe_effect_elements_attributes]) and for the document node as the selected node
     ([C17_xe_effect_document]); the frame property of the specification for every selection
-    ([C17_xe_frame]); xq_output.  Partial: a node-set that contains the document node TOGETHER
-    with other nodes is decided by the correspondence and the search only; cli_total is about
-    process behaviour the model cannot exhibit (exit status, panic message on stderr: observed
-    on the real binaries by the check). *)
+    ([C17_xe_frame]); xq_output.  xe_effect at full strength -- EVERY selection: the document node
+    anywhere among elements and attributes, any number, any order, duplicates, identifiers that
+    do not occur -- is [C17_xe_effect_any] (Proofs/XeAny.v); [C17_xe_outcome_cases] is the total
+    case analysis of Done / Refused / Unmodelled, [C17_xe_done_iff], [C17_xe_refused_reasons],
+    [C17_xe_unmodelled_reason], [C17_xe_done_excludes_reasons] say it without the loop, and
+    [C17_xe_complete] is the converse direction (where replace_spec is defined the tool answers
+    that document, or refuses for a listed reason, or is unmodelled).
+    [C17_xe_refused_where_spec_defined] keeps the three shapes on which replace_spec is defined
+    and the tool refuses although the replacement has nothing unsupported (the specification
+    does not look at selected attributes below a replaced node, and does not see empty
+    character data): no violation of xe_effect (which speaks about exit 0), recorded for the
+    failing-input search, which counts "spec defined, tool refuses" as a failure.
+    [C17_xe_done_iff_strict]: against the stricter reading [replace_spec_strict] (Spec/XeStrict.v:
+    replace_spec plus "every selected attribute ANYWHERE in the document can hold the replacement"
+    and "the document node holds the replacement as parsed") the tool answers a document exactly
+    when the specification does, and the same one ([C17_xe_effect_strict], [C17_xe_strict_complete];
+    [C17_strict_refines]: the strict reading only refuses more); [C17_xe_attr_needs_text]: markup
+    for a selected attribute is never Done, wherever the attribute lies.
+    Partial: cli_total is about process behaviour the model cannot exhibit (exit status, panic
+    message on stderr: observed on the real binaries by the check). *)
 From Coq Require Import List NArith Bool Arith.
-From XmlRs Require Import Base.CPred Spec.XeSpec Model.Cli Proofs.XeProofs.
+From XmlRs Require Import Base.CPred Spec.XeSpec Spec.XeStrict Model.Cli Proofs.XeProofs Proofs.XeAny.
 Import ListNotations.
 
 Theorem C17_xe_effect_elements_partial :
@@ -44,8 +60,134 @@ Proof. exact rs_frame. Qed.
 Theorem C17_xq_output : forall lines : list str, xq_model lines = xq_spec lines.
 Proof. exact xq_output. Qed.
 
+(** ** every selection (document node together with elements and attributes) *)
+Theorem C17_xe_effect_any :
+  forall (d : xdoc) (sel : list (nat * kind)) (frag : list fnode) (d' : xdoc),
+  did d = 0%nat -> sel_wf sel ->
+  (has_doc sel = false -> Forall (kinds_ok (rev (elems_of sel)) (rev (attrs_of sel))) (dchildren d)) ->
+  xe_model d sel frag = Done d' -> replace_spec (map fst sel) frag d = Some d'.
+Proof. exact xe_effect_any. Qed.
+
+Theorem C17_xe_outcome_cases :
+  forall (d : xdoc) (sel : list (nat * kind)) (frag : list fnode),
+  match first_stop (map snd sel) frag with
+  | Some SUnmodelled => xe_model d sel frag = Unmodelled
+  | Some SRefused => xe_model d sel frag = Refused
+  | None => if root_after d sel frag
+            then exists d', xe_model d sel frag = Done d' /\ did d' = did d
+            else xe_model d sel frag = Refused
+  end.
+Proof. exact xe_outcome_cases. Qed.
+
+Theorem C17_xe_done_iff :
+  forall (d : xdoc) (sel : list (nat * kind)) (frag : list fnode),
+  (exists d', xe_model d sel frag = Done d') <->
+  forallb (fun p => accepts (snd p) frag) sel = true /\ root_after d sel frag = true.
+Proof. exact xe_done_iff. Qed.
+
+Theorem C17_xe_refused_reasons :
+  forall (d : xdoc) (sel : list (nat * kind)) (frag : list fnode),
+  xe_model d sel frag = Refused ->
+     has_other sel = true
+  \/ ((has_elem sel || has_doc sel) = true /\ existsb unsupported frag = true)
+  \/ (has_attr sel = true /\ frag_text frag = None)
+  \/ (has_doc sel = true /\ forallb convertible frag = true /\ doc_children_ok (map conv frag) = false)
+  \/ (has_doc sel = false /\ existsb is_elem (dchildren d) = false).
+Proof. exact xe_refused_reasons. Qed.
+
+Theorem C17_xe_unmodelled_reason :
+  forall (d : xdoc) (sel : list (nat * kind)) (frag : list fnode),
+  xe_model d sel frag = Unmodelled ->
+  (has_elem sel || has_doc sel) = true /\ existsb prefixed frag = true.
+Proof. exact xe_unmodelled_reason. Qed.
+
+Theorem C17_xe_done_excludes_reasons :
+  forall (d : xdoc) (sel : list (nat * kind)) (frag : list fnode) (d' : xdoc),
+  xe_model d sel frag = Done d' ->
+  has_other sel = false /\
+  ((has_elem sel || has_doc sel) = true -> forallb convertible frag = true /\ existsb unsupported frag = false
+                                           /\ existsb prefixed frag = false) /\
+  (has_attr sel = true -> frag_text frag <> None) /\
+  (has_doc sel = true -> doc_children_ok (map conv frag) = true) /\
+  (has_doc sel = false -> existsb is_elem (dchildren d) = true).
+Proof. exact xe_done_excludes_reasons. Qed.
+
+Theorem C17_xe_complete :
+  forall (d : xdoc) (sel : list (nat * kind)) (frag : list fnode) (d' : xdoc),
+  did d = 0%nat -> sel_wf sel ->
+  (has_doc sel = false -> Forall (kinds_ok (rev (elems_of sel)) (rev (attrs_of sel))) (dchildren d)) ->
+  replace_spec (map fst sel) frag d = Some d' ->
+  xe_model d sel frag = Done d' \/ xe_model d sel frag = Refused \/ xe_model d sel frag = Unmodelled.
+Proof. exact xe_complete. Qed.
+
+(** replace_spec defined, tool refuses, nothing unsupported in the replacement: the three shapes
+    (`//a|//b/@p` with `<k/>` on `<r><a><b p="1"/></a></r>`; `/|//@p` with `<k/>` on `<r p="1"/>`;
+    `/` with `<![CDATA[]]><k/>` on `<r/>`) *)
+Theorem C17_xe_refused_where_spec_defined :
+  (exists d sel frag d', did d = 0%nat /\ sel_wf sel /\
+     Forall (kinds_ok (rev (elems_of sel)) (rev (attrs_of sel))) (dchildren d) /\
+     has_doc sel = false /\ existsb unsupported frag = false /\
+     xe_model d sel frag = Refused /\ replace_spec (map fst sel) frag d = Some d') /\
+  (exists d sel frag d', did d = 0%nat /\ sel_wf sel /\ has_doc sel = true /\ has_attr sel = true /\
+     existsb unsupported frag = false /\
+     xe_model d sel frag = Refused /\ replace_spec (map fst sel) frag d = Some d') /\
+  (exists d frag d', did d = 0%nat /\ existsb unsupported frag = false /\
+     xe_model d [(0%nat, KDoc)] frag = Refused /\ replace_spec [0%nat] frag d = Some d').
+Proof. exact xe_refused_where_spec_defined. Qed.
+
+(** ** the stricter specification: Done exactly when it is defined *)
+Theorem C17_strict_refines :
+  forall (sel : list nat) (frag : list fnode) (d d' : xdoc),
+  replace_spec_strict sel frag d = Some d' -> replace_spec sel frag d = Some d'.
+Proof. exact strict_refines. Qed.
+
+Theorem C17_xe_attr_needs_text :
+  forall (d : xdoc) (sel : list (nat * kind)) (frag : list fnode) (d' : xdoc),
+  has_attr sel = true -> frag_text frag = None -> xe_model d sel frag <> Done d'.
+Proof. exact xe_attr_needs_text. Qed.
+
+Theorem C17_xe_effect_strict :
+  forall (d : xdoc) (sel : list (nat * kind)) (frag : list fnode) (d' : xdoc),
+  dump_ok d sel ->
+  xe_model d sel frag = Done d' -> replace_spec_strict (map fst sel) frag d = Some d'.
+Proof. exact xe_effect_strict. Qed.
+
+Theorem C17_xe_strict_complete :
+  forall (d : xdoc) (sel : list (nat * kind)) (frag : list fnode) (d' : xdoc),
+  did d = 0%nat -> sel_wf sel ->
+  has_other sel = false ->
+  ((has_elem sel || has_doc sel) = true -> forallb convertible frag = true) ->
+  (has_attr sel = true -> existsb (attr_sel (map fst sel)) (dchildren d) = true) ->
+  (has_doc sel = false -> existsb is_elem (dchildren d) = true) ->
+  replace_spec_strict (map fst sel) frag d = Some d' ->
+  exists d'', xe_model d sel frag = Done d''.
+Proof. exact xe_strict_complete. Qed.
+
+Theorem C17_xe_done_iff_strict :
+  forall (d : xdoc) (sel : list (nat * kind)) (frag : list fnode) (d' : xdoc),
+  dump_ok d sel ->
+  has_other sel = false ->
+  ((has_elem sel || has_doc sel) = true -> forallb convertible frag = true) ->
+  (has_attr sel = true -> existsb (attr_sel (map fst sel)) (dchildren d) = true) ->
+  (has_doc sel = false -> existsb is_elem (dchildren d) = true) ->
+  (xe_model d sel frag = Done d' <-> replace_spec_strict (map fst sel) frag d = Some d').
+Proof. exact xe_done_iff_strict. Qed.
+
 Print Assumptions C17_xe_effect_elements_partial.
 Print Assumptions C17_xe_effect_elements_attributes.
 Print Assumptions C17_xe_effect_document.
 Print Assumptions C17_xe_frame.
 Print Assumptions C17_xq_output.
+Print Assumptions C17_xe_effect_any.
+Print Assumptions C17_xe_outcome_cases.
+Print Assumptions C17_xe_done_iff.
+Print Assumptions C17_xe_refused_reasons.
+Print Assumptions C17_xe_unmodelled_reason.
+Print Assumptions C17_xe_done_excludes_reasons.
+Print Assumptions C17_xe_complete.
+Print Assumptions C17_xe_refused_where_spec_defined.
+Print Assumptions C17_strict_refines.
+Print Assumptions C17_xe_attr_needs_text.
+Print Assumptions C17_xe_effect_strict.
+Print Assumptions C17_xe_strict_complete.
+Print Assumptions C17_xe_done_iff_strict.
